@@ -306,6 +306,21 @@ def run(ctx):
     ctx.transitions += tr
     ctx.traces += ok
     ctx.extra['files'] = {k: sum(1 for r_ in recs if r_['ev'] == k) for k in ('data', 'dump', 'poscar')}
+    import copy
+    neg = []
+    dd = [r_ for r_ in recs if r_['ev'] == 'data' and r_['sys']['natoms'] > 1]
+    if dd:
+        c = copy.deepcopy(dd[0]); c['lines'] = [l for l in c['lines'] if l['k'] != 'ntypes']; neg.append(c)                 # header incomplete
+        c = copy.deepcopy(dd[0]); rows = [l for l in c['lines'] if l['k'] == 'row']; rows[0]['v'][0] = rows[1]['v'][0]; neg.append(c)   # duplicate id
+        c = copy.deepcopy(dd[0]); c['sys']['atoms'][0][5][0] += 7; neg.append(c)                                                # position differs
+        c = copy.deepcopy(dd[0]); c['info']['units'] = 'lj'; neg.append(c)
+    du = [r_ for r_ in recs if r_['ev'] == 'dump']
+    if du:
+        c = copy.deepcopy(du[0]); c['hdr']['natoms'] += 1; neg.append(c)
+    po = [r_ for r_ in recs if r_['ev'] == 'poscar']
+    if po:
+        c = copy.deepcopy(po[0]); c['scale'] *= 2; neg.append(c)
+    ctx.extra['corrupted_records_rejected'] = tlc.must_reject('File_Trace', 'File_trace.cfg', neg, ctx.work, 'C07')
     for b in bads:
         rec = b['record']
         t = rec['tag'].split(':')
